@@ -760,7 +760,7 @@ func editStart(c *hx.Ctx, work bool) (string, *editState) {
 
 // editDraw draws a case: a starting file and an operation sequence.
 func editDraw(c *hx.Ctx, allowBad bool) editCase {
-	work := c.Rng.Intn(4) == 0
+	work := c.Rng.Intn(3) == 0
 	s, st := editStart(c, work)
 	ops := gen.EditOps(c.Rng, editKeysOf(st), work, allowBad)
 	return editCase{Work: work, Start: hex.EncodeToString([]byte(s)), Ops: ops}
@@ -831,7 +831,7 @@ func editShapeCounts(c *hx.Ctx, st *editState) {
 
 func runC15(c *hx.Ctx) {
 	// op sequences
-	for i := 0; i < c.N(2500); i++ {
+	for i := 0; i < c.N(3500); i++ {
 		ec := editDraw(c, i%5 == 0)
 		run := editRecord(c, ec, "typed")
 		if run == nil {
